@@ -125,8 +125,13 @@ def check(ctx):
                 # installing another thread's view changes what *this* thread exports; sound only because
                 # the memo is never served to a thread with local overrides (C11.R4) — check that here
                 dt = meths.get("detype")
-                dsrc = unparse(dt) if dt is not None else ""
-                ok = dsrc.count("self._d._local") >= 2
+                ok = False
+                if dt is not None:
+                    from .c11 import NO_OVERRIDES as _NOV, _through_predicates as _tp, _uncopy as _uc
+
+                    dcfg_ = CFG(dt)
+                    sites_ = [m_ for m_ in dcfg_.nodes if m_.kind == "stmt" and ((isinstance(m_.ast, ast.Return) and m_.ast.value is not None and unparse(_uc(m_.ast.value)) == "self._detyped") or (isinstance(m_.ast, ast.Assign) and any(unparse(t) == "self._detyped" for t in m_.ast.targets) and const_value(m_.ast.value, 0) is not None))]
+                    ok = len(sites_) >= 2 and all(any((not pol) and unparse(e) in _NOV for e, pol in _tp(facts_at(dcfg_, m_), meths)) for m_ in sites_)
                 ctx.ob("R1", st, f"`{short(mut, 60)}` changes only the thread-local layer, which the memo never covers (detype bypasses the memo for threads with local overrides)", ok, key=f"{name}|store-mutation-without-invalidation", where=loc(mut))
                 continue
             ctx.ob("R1", st, f"`{short(mut, 60)}` is followed by dropping the memoised mapping on every normal path", ok, key=f"{name}|store-mutation-without-invalidation|{short(mut, 40)}", where=loc(mut), path=cfg.fmt_path(path) if path else None)
